@@ -38,7 +38,10 @@ Section Inv.
     inv_cmain : forall a, In a L -> cget (r0, h_num a) (cons s) = Some (cstate_of a);
     inv_cnodup : NoDup (map fst (cons s));
     inv_closure : forall a, Stored (idx s) a -> low (head s) L < h_num a -> parent_of (idx s) a <> None;
-    inv_rmain : forall a, Stored (idx s) a -> low (head s) L <= h_num a ->
+    (* the root-main slot of a stored header not below the main chain's lowest height points at it -- for
+       EVERY such header as long as no two stored headers of one height share a root (code as it is), for the
+       main-chain headers only with the repair [fix_root] (which re-points the slots on a re-organisation) *)
+    inv_rmain : forall a, Stored (idx s) a -> low (head s) L <= h_num a -> (fix_root = true -> In a L) ->
                           rget (to_hash (h_root a), h_num a) (rmain s) = Some (key a);
     inv_low : forall a, Stored (idx s) a -> g0 <= h_num a;
     inv_univ : forall a, Stored (idx s) a -> U a;
@@ -251,7 +254,7 @@ Section Inv.
     (* the root-main entry of the earliest state's header *)
     assert (LowL : low (head s) L = h_num aL) by reflexivity.
     rewrite LowL.
-    rewrite (inv_rmain _ _ _ I aL SL) by (rewrite LowL; lia).
+    rewrite (inv_rmain _ _ _ I aL SL) by (try (rewrite LowL; lia); intros _; exact InL).
     split; [reflexivity|].
     (* indices *)
     set (n := length L1).
@@ -317,11 +320,12 @@ Section Inv.
       exfalso. destruct (stored_wf _ _ _ _ WF Sa') as [_ [Ha63 _]].
       assert (Q : sub64 (h_num a) 1 = h_num aL) by (inversion K; reflexivity).
       rewrite sub64_pred in Q; [lia | lia | pose proof two63_lt_two64; lia].
-    - (* inv_rmain *) intros a Sa Ha. unfold Stored in Sa. pose proof (idel_sub _ _ _ _ Sa) as Sa'.
+    - (* inv_rmain *) intros a Sa Ha Ia. unfold Stored in Sa. pose proof (idel_sub _ _ _ _ Sa) as Sa'.
       rewrite Low1 in Ha. unfold rdel. rewrite rget_rdel.
       destruct (hkey_eqb_spec (to_hash (h_root a), h_num a) (to_hash (h_root aL), h_num aL)) as [K|_].
       + exfalso. assert (h_num a = h_num aL) by (inversion K; reflexivity). lia.
-      + apply (inv_rmain _ _ _ I a Sa'). rewrite LowL. lia.
+      + apply (inv_rmain _ _ _ I a Sa'); [rewrite LowL; lia|].
+        intro Fx. rewrite EqL1. apply in_or_app. left. exact (Ia Fx).
     - (* inv_low *) intros a Sa. apply (inv_low _ _ _ I). exact (idel_sub _ _ _ _ Sa).
     - (* inv_univ *) intros a Sa. apply (inv_univ _ _ _ I). exact (idel_sub _ _ _ _ Sa).
     - (* inv_dead *) rewrite LastL1. cbn [DeadPath]. split; [exact KU|].
